@@ -31,20 +31,28 @@ struct VarFunc {
     dag: Dag,
     root: usize,
     nvars: usize,
+    axes: u32,
     /// value supplied for variable k
     values: Vec<f32>,
 }
 
 /// An expression in which every variable has its own, well separated
 /// influence, built in a drawn traversal order.
-fn gen_varfunc(ch: &mut Chooser) -> VarFunc {
+fn gen_varfunc(ch: &mut Chooser, same_as: Option<&VarFunc>) -> VarFunc {
     let mut dag = Dag::default();
-    let nvars = match ch.choose("nvars_kind", 4) {
-        0 => ch.choose("nvars_small", 4),
-        1 | 2 => ch.choose("nvars_mid", 13),
-        _ => ch.choose("nvars_big", 41),
-    } as usize;
-    let axes = ch.choose("axes", 8); // bitmask, may be empty
+    let (nvars, axes) = match same_as {
+        // same variables and axes as an earlier function of this run, met
+        // in another order
+        Some(o) => (o.nvars, o.axes),
+        None => (
+            match ch.choose("nvars_kind", 4) {
+                0 => ch.choose("nvars_small", 4),
+                1 | 2 => ch.choose("nvars_mid", 13),
+                _ => ch.choose("nvars_big", 41),
+            } as usize,
+            ch.choose("axes", 8), // bitmask, may be empty
+        ),
+    };
     // leaves in a drawn order: this is the order in which the compiler first
     // meets each variable
     let mut leaves: Vec<Ex> = vec![];
@@ -117,6 +125,7 @@ fn gen_varfunc(ch: &mut Chooser) -> VarFunc {
         dag,
         root,
         nvars,
+        axes,
         values,
     }
 }
@@ -249,10 +258,31 @@ impl C14<'_> {
     }
 }
 
+/// Shape-level evaluator objects, kept across all shapes of one run: binding
+/// must depend on the tape at hand, not on what the evaluator saw before
+struct Evals<F: Function> {
+    pe: ShapeTracingEval<F::PointEval>,
+    ie: ShapeTracingEval<F::IntervalEval>,
+    fe: ShapeBulkEval<F::FloatSliceEval>,
+    ge: ShapeBulkEval<F::GradSliceEval>,
+}
+
+impl<F: Function + Clone> Evals<F> {
+    fn new() -> Self {
+        Evals {
+            pe: Shape::<F>::new_point_eval(),
+            ie: Shape::<F>::new_interval_eval(),
+            fe: Shape::<F>::new_float_slice_eval(),
+            ge: Shape::<F>::new_grad_slice_eval(),
+        }
+    }
+}
+
 fn c14_backend<F: Function + MathFunction + Clone>(
     st: &Shared,
     rep: &mut RunReport,
     c: &C14,
+    evs: &mut Evals<F>,
 ) {
     let ch = |f: &mut dyn FnMut(&mut Chooser) -> u32| -> u32 {
         f(&mut st.borrow_mut().ch)
@@ -329,7 +359,7 @@ fn c14_backend<F: Function + MathFunction + Clone>(
     // point evaluation, every entry point
     let r = rt::catch(|| {
         let tape = shape.ez_point_tape();
-        let mut ev = Shape::<F>::new_point_eval();
+        let ev = &mut evs.pe;
         let mut out = vec![];
         for p in &pts {
             let a = ev
@@ -407,12 +437,12 @@ fn c14_backend<F: Function + MathFunction + Clone>(
         let want = c.vars[miss].index().unwrap();
         let r = rt::catch(|| {
             let p = pts[0];
-            let mut pe = Shape::<F>::new_point_eval();
+            let pe = &mut evs.pe;
             let a = match pe.eval_raw(&shape.ez_point_tape(), p[0], p[1], p[2], xf, &sv2) {
                 Err(ShapeTracingEvalError::MissingVar(m)) => m.var == want,
                 _ => false,
             };
-            let mut ie = Shape::<F>::new_interval_eval();
+            let ie = &mut evs.ie;
             let b = match ie.eval_raw(
                 &shape.ez_interval_tape(),
                 Interval::new(p[0], p[0] + 1.0),
@@ -424,7 +454,7 @@ fn c14_backend<F: Function + MathFunction + Clone>(
                 Err(ShapeTracingEvalError::MissingVar(m)) => m.var == want,
                 _ => false,
             };
-            let mut fe = Shape::<F>::new_float_slice_eval();
+            let fe = &mut evs.fe;
             let cc = match fe.eval_raw(
                 &shape.ez_float_slice_tape(),
                 &[p[0]],
@@ -467,7 +497,7 @@ fn c14_backend<F: Function + MathFunction + Clone>(
     ];
     let r = rt::catch(|| {
         let tape = shape.ez_interval_tape();
-        let mut ev = Shape::<F>::new_interval_eval();
+        let ev = &mut evs.ie;
         let (iv, tr) = ev
             .eval_raw(
                 &tape,
@@ -530,7 +560,7 @@ fn c14_backend<F: Function + MathFunction + Clone>(
         .collect();
     let r = rt::catch(|| {
         let tape = shape.ez_float_slice_tape();
-        let mut ev = Shape::<F>::new_float_slice_eval();
+        let ev = &mut evs.fe;
         let a = match xf {
             Some(m) => ev
                 .eval_with_transform_and_vars(&tape, &xs, &ys, &zs, m, &sv)
@@ -576,7 +606,7 @@ fn c14_backend<F: Function + MathFunction + Clone>(
     let gz: Vec<Grad> = zs.iter().map(|v| Grad::new(*v, 0.0, 0.0, 1.0)).collect();
     let r = rt::catch(|| {
         let tape = shape.ez_grad_slice_tape();
-        let mut ev = Shape::<F>::new_grad_slice_eval();
+        let ev = &mut evs.ge;
         match xf {
             Some(m) => ev
                 .eval_with_transform_and_vars(&tape, &gx, &gy, &gz, m, &sv)
@@ -619,7 +649,7 @@ fn c14_backend<F: Function + MathFunction + Clone>(
         let r = rt::catch(|| {
             let child = shape.ez_simplify(&tr).expect("trace from evaluator");
             let tape = child.ez_point_tape();
-            let mut ev = Shape::<F>::new_point_eval();
+            let ev = &mut evs.pe;
             let a: Vec<f32> = pts
                 .iter()
                 .map(|p| {
@@ -629,7 +659,7 @@ fn c14_backend<F: Function + MathFunction + Clone>(
                 })
                 .collect();
             let ft = child.ez_float_slice_tape();
-            let mut fe = Shape::<F>::new_float_slice_eval();
+            let fe = &mut evs.fe;
             let b = fe
                 .eval_raw(
                     &ft,
@@ -662,38 +692,58 @@ fn c14_backend<F: Function + MathFunction + Clone>(
 
 pub fn run_c14(st: &Shared, _tier: Tier) -> RunReport {
     let mut rep = RunReport::default();
-    let (vf, xf, backend) = {
+    // 1-3 functions per run; later ones usually mention the same variables
+    // and axes as the first, met in a different traversal order, and all are
+    // evaluated with the same evaluator objects
+    let (vfs, xf, backend) = {
         let ch = &mut st.borrow_mut().ch;
-        let vf = gen_varfunc(ch);
+        let first = gen_varfunc(ch, None);
+        let mut vfs = vec![first];
+        let more = ch.choose("more_shapes", 3) as usize;
+        for _ in 0..more {
+            let same = ch.odds("same_vars", 3, 4);
+            let vf = gen_varfunc(ch, if same { Some(&vfs[0]) } else { None });
+            vfs.push(vf);
+        }
         let xf = gen_transform(ch);
         let backend = ch.choose("backend", 3);
-        (vf, xf, backend)
+        (vfs, xf, backend)
     };
     // identities and hash keys of this run come from the getrandom seam
-    let vars: Vec<Var> = (0..vf.nvars).map(|_| Var::new()).collect();
-    let mut ctx = Context::new();
-    let nodes = vf.dag.lower(&mut ctx, &vars);
-    let root = nodes[vf.root];
+    let maxv = vfs.iter().map(|v| v.nvars).max().unwrap();
+    let vars: Vec<Var> = (0..maxv).map(|_| Var::new()).collect();
     rep.sample = format!(
-        "backend={backend} nvars={} transform={} expr={}",
-        vf.nvars,
+        "backend={backend} shapes={} nvars={:?} transform={} expr0={}",
+        vfs.len(),
+        vfs.iter().map(|v| v.nvars).collect::<Vec<_>>(),
         match &xf {
             None => "none".to_string(),
             Some(m) => format!("{:?}", m.as_slice()),
         },
-        vf.dag.describe(vf.root)
+        vfs[0].dag.describe(vfs[0].root)
     );
-    let c = C14 {
-        vf: &vf,
-        ctx,
-        root,
-        vars,
-        xf,
-    };
-    // signature: the actual slot assignment this run's randomness produced
-    let sig = {
+    rep.count("fault.fresh_hash_keys_and_var_ids", 1);
+    if vfs.len() > 1 {
+        rep.count("fault.evaluator_reused_across_shapes", vfs.len() as u64 - 1);
+    }
+    let cs: Vec<C14> = vfs
+        .iter()
+        .map(|vf| {
+            let mut ctx = Context::new();
+            let nodes = vf.dag.lower(&mut ctx, &vars[..vf.nvars]);
+            C14 {
+                vf,
+                root: nodes[vf.root],
+                ctx,
+                vars: vars[..vf.nvars].to_vec(),
+                xf,
+            }
+        })
+        .collect();
+    // signature: the actual slot assignments this run's randomness produced
+    let mut sig = 0u64;
+    for c in &cs {
         let f = VmFunction::new(&c.ctx, &[c.root]).unwrap();
-        let mut h = 0u64;
         for (v, i) in f.vars().iter() {
             let k = match v {
                 Var::X => 1000,
@@ -701,21 +751,37 @@ pub fn run_c14(st: &Shared, _tier: Tier) -> RunReport {
                 Var::Z => 1002,
                 v => c.vars.iter().position(|q| *q == v).unwrap() as u64,
             };
-            h = mix(h, mix(k, i as u64));
+            sig = mix(sig, mix(k, i as u64));
         }
-        h
-    };
+    }
     st.borrow_mut().log("var_order_sig", sig, 0);
-    rep.count("fault.fresh_hash_keys_and_var_ids", 1);
-    if vf.nvars >= 2 {
+    if maxv >= 2 {
         rep.sigs.push(sig);
     }
-    rep.evaluations += 1;
-    rep.steps += 1;
+    fn go<F: Function + MathFunction + Clone>(
+        st: &Shared,
+        rep: &mut RunReport,
+        cs: &[C14],
+    ) {
+        let mut evs = Evals::<F>::new();
+        // visit the shapes in order, then the first one again (A-B-A)
+        let mut order: Vec<usize> = (0..cs.len()).collect();
+        if cs.len() > 1 {
+            order.push(0);
+        }
+        for i in order {
+            rep.evaluations += 1;
+            rep.steps += 1;
+            c14_backend::<F>(st, rep, &cs[i], &mut evs);
+            if !rep.violations.is_empty() {
+                break;
+            }
+        }
+    }
     match backend {
-        0 => c14_backend::<VmFunction>(st, &mut rep, &c),
-        1 => c14_backend::<JitFunction>(st, &mut rep, &c),
-        _ => c14_backend::<GenericVmFunction<3>>(st, &mut rep, &c),
+        0 => go::<VmFunction>(st, &mut rep, &cs),
+        1 => go::<JitFunction>(st, &mut rep, &cs),
+        _ => go::<GenericVmFunction<3>>(st, &mut rep, &cs),
     }
     let d = rep.checked_oracle;
     st.borrow_mut().log("c14_done", d, rep.violations.len() as u64);
